@@ -168,6 +168,10 @@ func (c *Ctx) RunSched(o explore.SchedOpts, keyOf func(v *explore.Violation) str
 		for i := 0; i < 5; i++ {
 			rr := explore.Replay(o.Body, v.Choices)
 			vd := o.Check(rr)
+			if rr.Status == vsched.StHorizon && strings.HasPrefix(v.Message, "no quiescence") {
+				vd.Violation = v.Message // a livelock reproduces as a livelock
+				rr.Trace = tail(rr.Trace, 400)
+			}
 			if vd.Violation == "" {
 				r.EngineErrors = append(r.EngineErrors, fmt.Sprintf("scenario %s: violation %q did not reproduce on replay %d", o.Name, v.Message, i))
 				return &st
